@@ -22,6 +22,14 @@
 //! which fails the Coq check (fail closed).  Shapes that cannot be represented at all (an anchored
 //! file missing, a macro_rules body calling a propagating method) make this program exit non-zero.
 //!
+//! Items are dropped as test-only only when their `#[cfg(..)]` predicate evaluates to false with `test` off
+//! (`cfg(test)`, `cfg(all(test, ..))`); `cfg(not(test))`, features etc. are kept.  A propagating NAME that occurs
+//! outside call position (path / method reference / field / any token inside a macro invocation) is `Other`; so is
+//! `call?` inside a function that does not itself return Result<_, X::Error>.  Besides the skeletons the output
+//! contains `site_census` (per file: `name(` tokens in all non-test code) and `target_error_types` (the
+//! `type Error` of every `impl DrawTarget`), both checked against the table in Properties/C04.v.
+//! `--sites <tsv>` lists the source span of every call site (used by mutation_tests.py --per-site).
+//!
 //! Completeness self-check (independent of the AST walk): per function the number of `name(` tokens with a
 //! propagating name must equal the number of translated call sites, otherwise an `Other` is appended.
 //! Known limit (documented in props/C04.py): calls are recognised by NAME.  A callee that is not defined in the
